@@ -1189,6 +1189,17 @@ def loop_spelling(cfunc, rfunc):
     cl, rl = loops(cfunc), loops(rfunc)
     names = {x.id for x in ast.walk(cfunc) if isinstance(x, ast.Name)}
     acts = []
+    # tqdm.trange(*a, **kw) is defined as tqdm(range(*a), **kw): spelled the way the reference spells it
+    ref_trange = any(isinstance(n, ast.Call) and isinstance(n.func, ast.Name) and n.func.id == "trange" for n in ast.walk(rfunc))
+    ref_tqdm_range = any(isinstance(n, ast.Call) and isinstance(n.func, ast.Name) and n.func.id == "tqdm" and n.args and isinstance(n.args[0], ast.Call)
+                         and isinstance(n.args[0].func, ast.Name) and n.args[0].func.id == "range" for n in ast.walk(rfunc))
+    if ref_trange and not ref_tqdm_range:
+        for n in ast.walk(cfunc):
+            if isinstance(n, ast.Call) and isinstance(n.func, ast.Name) and n.func.id == "tqdm" and len(n.args) == 1 and isinstance(n.args[0], ast.Call) and \
+                    isinstance(n.args[0].func, ast.Name) and n.args[0].func.id == "range" and not n.args[0].keywords:
+                n.func = ast.copy_location(ast.Name(id="trange", ctx=ast.Load()), n.func)
+                n.args = list(n.args[0].args)
+                acts.append("loop-form tqdm(range(..))->trange(..)")
     # an enumerate() whose index nobody reads:  for j, x in enumerate(E)  ==  for x in E   (spelled the way the reference spells it)
     def unused_enum(f):
         loads = {x.id for x in ast.walk(f) if isinstance(x, ast.Name) and isinstance(x.ctx, (ast.Load, ast.Del))}
